@@ -205,3 +205,65 @@ def h_purity(pi: int, ui: List[int], uj: List[int], ndraw: int) -> bool:
         return rt.fail(f"C14:{cname}:draws-after-reassigning-the-rewound-stream-differ-from-a-fresh-instance",
                        lambda: f"{cname}{params} uniforms {us}: {g} vs fresh {a}")
     return True
+
+
+# ---------------------------------------------------------------------------------------------------------------
+# "every parameter set inside the documented domain yields a usable distribution" at the EXTREMES of the domain, in
+# IEEE arithmetic (underflow of exp(-rate), overflow of products): concrete extreme parameter sets selected by a
+# symbolic index (explicit fork), a leading uniform from the grid, then the equidistributed tail.  A draw must
+# terminate within a budget of uniforms, must not raise and must lie in the support.
+# ---------------------------------------------------------------------------------------------------------------
+EXTREME = [
+    ("DistPoisson", (1e-300,)), ("DistPoisson", (745.0,)), ("DistPoisson", (746.0,)), ("DistPoisson", (1000.0,)), ("DistPoisson", (1e6,)),
+    ("DistExponential", (1e-300,)), ("DistExponential", (1e300,)),
+    ("DistErlang", (1e-300, 1)), ("DistErlang", (1e300, 2)), ("DistErlang", (1.0, 400)),
+    ("DistGeometric", (0.9999999999999999,)), ("DistGeometric", (1e-9,)),
+    ("DistBernoulli", (0.0,)), ("DistBernoulli", (1.0,)),
+    ("DistBinomial", (400, 0.5)), ("DistBinomial", (1, 1.0)),
+    ("DistDiscreteUniform", (-10 ** 18, 10 ** 18)), ("DistDiscreteUniform", (7, 8)),
+    ("DistUniform", (-1e300, 1e300)), ("DistUniform", (1.0, 1.0000000000000002)),
+    ("DistWeibull", (1e3, 1e300)), ("DistNormal", (0.0, 1e300)), ("DistLogNormal", (0.0, 1e-300)),
+    ("DistGamma", (1.0, 1e300)), ("DistGamma", (1e3, 1e-300)),
+]
+# not in the list (stated as outside the claim): parameter magnitudes whose intermediate results overflow or are absorbed in
+# double precision by construction of the formula (hi - lo beyond 1.8e308, Geometric p below 2^-53 which acts like the recorded
+# p = 0 finding, Pearson5 / Weibull scale 1e-300)
+BUDGET = 20000
+
+
+class Budgeted(Scripted):
+    class Exhausted(Exception):
+        pass
+
+    def next_float(self):
+        if self.calls >= BUDGET:
+            raise Budgeted.Exhausted()
+        return Scripted.next_float(self)
+
+
+def h_extreme(ei: int, ui: int) -> bool:
+    """
+    pre: 0 <= ei < len(EXTREME)
+    pre: 0 <= ui < 5
+    post: _
+    """
+    cname, params = EXTREME[0]
+    for k in range(len(EXTREME)):          # explicit fork: concrete parameters on every path
+        if ei == k:
+            cname, params = EXTREME[k]
+    u = _pick(ui)
+    st = Budgeted([u])
+    try:
+        d = getattr(D, cname)(st, *params)
+    except Exception as e:      # noqa
+        return rt.fail(f"C14:{cname}:constructor-raised-{type(e).__name__}:in-domain-extreme", lambda: f"{cname}{params}: {e!r}")
+    for n in range(2):
+        try:
+            v = d.draw()
+        except Budgeted.Exhausted:
+            return rt.fail(f"C14:{cname}:draw-does-not-terminate", lambda: f"{cname}{params}: more than {BUDGET} uniforms consumed by one draw")
+        except Exception as e:      # noqa
+            return rt.fail(f"C14:{cname}:draw-raised-{type(e).__name__}:in-domain-extreme", lambda: f"{cname}{params} first uniform {u!r}: {e!r}")
+        if not SUPPORT[cname](v, list(params)):
+            return rt.fail(f"C14:{cname}:draw-outside-support:in-domain-extreme", lambda: f"{cname}{params} first uniform {u!r}: draw {v!r}")
+    return True
